@@ -144,6 +144,33 @@ def run(ctx):
                 continue
             key = {"why": v["why"], "scenario": kind, "amb_or_dropped": bool(v.get("amb", False)), "imgs": bool(r.get("imgs", r.get("amb", False)))}
             ctx.fail(key, f"history {v['id']} ({kind} {r['h']}x{r['w']}) step {v['step']}: {v['why']}", {"kind": kind, "record": strip(r), "step": v["step"]})
+    # ---- run_render on a real pseudo-terminal with the kitty protocol switched on: an image that was delivered, stays
+    # as it is while the terminal stalls and frames pile up, and is gone from the first frame after the drop on must be
+    # gone from the terminal too (FrameStream.tla, rule "image"); the history avoids C01-stale-image-after-frame-drop
+    nimg = 6 if q else 48
+    jobs = []
+    for i, part in enumerate(lib.shard([{"id": i, "seed": ctx.seed * 1000 + 500 + i, "image": True} for i in range(nimg)], 6)):
+        ip = ctx.path("render", f"in.{i}.ndjson")
+        lib.write_ndjson(ip, part)
+        jobs.append((["isolate", "c16-render"], ip, ctx.path("render", f"rec.{i}.ndjson")))
+    lib.harness_parallel(jobs, timeout=3000)
+    rrecs = []
+    for _, _, f in jobs:
+        for r in lib.read_ndjson(f):
+            if "outcome" in r:
+                r = {"id": r["id"], "seed": r["input"]["seed"], "frames": 0, "markers": [], "drops": 0, "payload": 0, "payload_seen": 0, "image": True, "kitty": [], "panic": r["outcome"]}
+            rrecs.append(r)
+    rv, _ = lib.judge_sharded(ctx, "io/FrameStream", None, rrecs, "render", nshards=2)
+    rby = {r["id"]: r for r in rrecs}
+    for v in rv:
+        r = rby[v["id"]]
+        if v["why"].startswith("image") or v["why"] == "panic":
+            ctx.fail({"why": "render: " + v["why"], "scenario": "render-image"},
+                     f"run_render on a stalled pty with an image, seed={r['seed']}: {v['why']}; {r['frames']} frames, {r['drops']} drops, kitty commands received {r['kitty']} {r['panic']}"[:900],
+                     {"render_session": {"seed": r["seed"], "image": True}})
+    live = [r for r in rrecs if r["drops"] and any(c[0] == 1 for c in r["kitty"])]
+    if rrecs and not live and not ctx.failures:
+        raise lib.ToolError("vacuous image render sessions: no session both placed the image and dropped frames")
     shapes = set()
     for kind, r in recs_by_id.values():
         for o in r.get("ops", []):
@@ -163,6 +190,7 @@ def run(ctx):
         "frames_judged": frames, "distinct_nontrivial": len(shapes), "evaluations": nh,
         "rule": "histories = seeded random op sequences (frame/clear/recreate/new/skip) on several screen sizes, all ordered pairs of TLC-generated surfaces on small screens, run_render sessions with scripted deliveries/drops/resizes; distinct = distinct (scenario, size, op, surface) tuples",
         "generated_surfaces": nsurf,
+        "render_image_sessions": len(rrecs), "render_image_sessions_with_image_and_drop": len(live),
         "model_drift_frames": drift,
     }
     return lib.finish(ctx, "model_checking", cov,
